@@ -47,7 +47,18 @@ func (c *cluster) quiescent() (bool, string) {
 			return false, fmt.Sprintf("handler of stream %d>%d to start", s.from, s.to)
 		}
 		if !srvDone && !closing && nDel > 0 && (srvRecvs < nDel+1 || !ackedDelivered) {
-			return false, fmt.Sprintf("follower %d to acknowledge append %d of stream from %d", s.to, nDel, s.from)
+			// (a follower whose flush the schedule holds has appended the entry and waits for the flush)
+			held := false
+			if srvRecvs >= nDel+1 {
+				fn := c.node(s.to)
+				c.mu.Lock()
+				appended := int64(len(fn.log)+len(fn.pending)) - 1
+				held = fn.parked != nil && appended >= s.lastDelivOff
+				c.mu.Unlock()
+			}
+			if !held {
+				return false, fmt.Sprintf("follower %d to acknowledge append %d of stream from %d", s.to, nDel, s.from)
+			}
 		}
 		if nAckDel > 0 && !cliDead && cliRecvs < nAckDel+1 {
 			return false, fmt.Sprintf("leader %d to process ack %d from %d", s.from, nAckDel, s.to)
@@ -133,8 +144,9 @@ func (c *cluster) quiescent() (bool, string) {
 			want = last
 		}
 		have, up := n.dbCommit, n.up
+		held := n.parked != nil // its sync goroutine (which applies what commits) waits for the parked flush
 		c.mu.Unlock()
-		if up && want > have {
+		if up && want > have && !held {
 			if fcm := n.followerCommit(); fcm != -2 && fcm < want {
 				return false, fmt.Sprintf("follower %d to apply entries up to the advertised commit offset %d", n.id, want)
 			}
@@ -237,6 +249,7 @@ func (c *cluster) harvest() bool {
 		newSent := append([]*proto.Append(nil), s.sentLog[s.harvested:]...)
 		s.harvested = len(s.sentLog)
 		newAcks := append([]int64(nil), s.ackLog[s.ackHarv:]...)
+		newSynced := append([]int64(nil), s.ackSynced[s.ackHarv:]...)
 		s.ackHarv = len(s.ackLog)
 		s.mu.Unlock()
 		for _, a := range newSent {
@@ -244,8 +257,8 @@ func (c *cluster) harvest() bool {
 			c.tok(fmt.Sprintf("SA:%d:%d:%d", s.from, s.to, a.Entry.Offset))
 			did = true
 		}
-		for _, off := range newAcks {
-			c.harvestAckEmitted(s, off)
+		for i, off := range newAcks {
+			c.harvestAckEmitted(s, off, newSynced[i])
 			did = true
 		}
 	}
@@ -388,8 +401,33 @@ func (c *cluster) harvestElect(g *gate) {
 	c.mon.onElect(el, all)
 }
 
-func (c *cluster) harvestAckEmitted(s *rstream, off int64) {
+func (c *cluster) harvestAckEmitted(s *rstream, off int64, synced int64) {
 	lg := c.shadowLog(s.to)
+	// an acknowledgement says "durable here": the follower's WAL must have reported the offset as synced when the ack
+	// was sent (a power loss right after the ack would otherwise take an acknowledged entry away)
+	if synced != -2 && synced < off && off >= 0 {
+		c.mu.Lock()
+		fn := c.node(s.to)
+		pend := append([]entry(nil), fn.pending...)
+		virtual := off < fn.walFirst
+		c.mu.Unlock()
+		if !virtual {
+			what := "the entry is not in its WAL at all"
+			var pe *entry
+			for i := range pend {
+				if pend[i].off == off {
+					pe = &pend[i]
+					what = fmt.Sprintf("entry %s is appended, no completed sync covers it", pend[i].tok())
+				}
+			}
+			c.violate("ack:follower-acked-unsynced-entry", fmt.Sprintf(
+				"term %d: follower %d sent the acknowledgement of offset %d to leader %d while its WAL was synced up to offset %d only (%s; synced log %s, appended and not synced %s): the leader counts this copy for the quorum, a power loss of the follower before its next sync completes takes the entry away",
+				s.term, s.to, off, s.from, synced, what, logTok(lg), logTok(pend)))
+			if pe != nil && off == int64(len(lg)) {
+				lg = append(lg, *pe) // reported below as what the follower claims to hold
+			}
+		}
+	}
 	if off < 0 || off >= int64(len(lg)) {
 		c.violate("ack:offset-not-in-follower-log", fmt.Sprintf("follower %d acknowledged offset %d in term %d but its log has %d entries", s.to, off, s.term, len(lg)))
 		return
@@ -560,6 +598,14 @@ func (c *cluster) step(st string) bool {
 	case "swap":
 		a, b := pair(f[1])
 		ok = c.stepSwap(a, b)
+	case "powerloss":
+		ok = c.stepPowerLoss(atoi(f[1]))
+	case "fpark":
+		ok = c.stepFlushPark(atoi(f[1]))
+	case "fnext":
+		ok = c.stepFlushRelease(atoi(f[1]), true)
+	case "frelease":
+		ok = c.stepFlushRelease(atoi(f[1]), false)
 	case "crestart":
 		ok = c.stepCoordRestart()
 	case "drain":
@@ -1793,7 +1839,11 @@ func (c *cluster) enabledDeliveries() []string {
 
 // ------------------------------------------------------------------------------------------------ faults
 
-func (c *cluster) stepCrash(id int) bool {
+func (c *cluster) stepCrash(id int) bool { return c.crashNode(id, nil, false) }
+
+// crashNode: survive (power loss only) = the entries that had been appended and not synced and are in the WAL the node
+// comes back with; a process death keeps them all (the page cache survives).
+func (c *cluster) crashNode(id int, survive []entry, power bool) bool {
 	n := c.node(id)
 	if n == nil || !n.up {
 		return false
@@ -1830,6 +1880,26 @@ func (c *cluster) stepCrash(id int) bool {
 	}
 	c.mu.Unlock()
 	c.killCursorsOf(id)
+	// a flush that the schedule holds goes on now (nothing it lets through can reach anybody: the links are gone)
+	c.mu.Lock()
+	if !power {
+		survive = append([]entry(nil), n.pending...)
+	}
+	synced := append([]entry(nil), n.log...)
+	fterm := n.term
+	n.park = nil
+	held := n.parked != nil
+	c.mu.Unlock()
+	if held {
+		c.releaseFlush(id, false)
+	}
+	// the model's follower appends and syncs in one action, which the harness reports when the follower acknowledges;
+	// entries that were appended, never acknowledged and are in the WAL the node comes back with are reported now
+	for _, e := range survive {
+		c.event("node %d keeps entry %s (offset %d), which it had appended and not yet synced", id, e.tok(), e.off)
+		c.tok(fmt.Sprintf("RA:%d:%d:%d:%s", id, mterm(fterm), e.off, e.tok()))
+		c.stats["crash:unsynced-entry-kept"]++
+	}
 	stopped := make(chan struct{})
 	go func() { n.stop(); close(stopped) }()
 	c.waitFor("node to stop", shortWait, func() bool {
@@ -1842,7 +1912,10 @@ func (c *cluster) stepCrash(id int) bool {
 	})
 	c.mu.Lock()
 	n.up = false
+	n.log = append(synced, survive...)
 	n.pending = nil
+	n.pendAtCrash = nil
+	n.advertised = -1 // (what the last Append advertised is gone with the process)
 	n.electing = false
 	if n.term >= 0 {
 		n.status = proto.ServingStatus_FENCED
@@ -1875,6 +1948,8 @@ func (c *cluster) stepDiskLoss(id int) bool {
 	removeAll(filepath.Join(n.dir, "db"))
 	c.mu.Lock()
 	n.log, n.pending, n.walFirst = nil, nil, 0
+	n.pendAtCrash = nil
+	n.invalidateImageLocked()
 	n.term, n.status = -1, proto.ServingStatus_NOT_MEMBER
 	n.dbCommit, n.advertised, n.mcommit, n.electing, n.snapFenced = -1, -1, 0, false, false
 	n.curWal = nil
